@@ -11,6 +11,7 @@ import (
 	"testing"
 
 	"github.com/blugelabs/bluge/index"
+	"github.com/blugelabs/bluge/index/lock"
 	segment "github.com/blugelabs/bluge_segment_api"
 )
 
@@ -169,6 +170,22 @@ func c13Special(t *testing.T, job *Job, res *Result) *Result {
 			}
 		}
 	}
+	// the item's file is held by another party (a loaded segment keeps a
+	// shared lock, a persist in flight an exclusive one): Persist has to fail
+	// and must leave that file exactly as it was
+	for _, kind := range kinds {
+		for _, size := range []int{0, 100, 5000} {
+			for _, holder := range []string{"shared", "exclusive"} {
+				cases++
+				nontrivial++
+				c := c13Case{Kind: kind, Size: size, Buffered: true, Pre: "held-" + holder, Item: "ok", Fault: "none"}
+				if msg := runC13Held(root, hook, c, holder == "exclusive"); msg != "" {
+					return fail(c, msg)
+				}
+				res.Stats.Probes["persist-over-file-held-by-another-party"]++
+			}
+		}
+	}
 	res.Extra["evaluations"] = float64(cases)
 	res.Extra["distinct_nontrivial"] = float64(nontrivial)
 	res.Extra["exhaustive"] = 1.0
@@ -209,6 +226,47 @@ func errnoOf(s string) syscall.Errno {
 		return syscall.ENOSPC
 	}
 	return syscall.EIO
+}
+
+func runC13Held(root string, hook *OSHook, c c13Case, exclusive bool) string {
+	dir := filepath.Join(root, "d")
+	_ = os.RemoveAll(dir)
+	if err := os.MkdirAll(dir, 0700); err != nil {
+		return "harness: " + err.Error()
+	}
+	const id = 7
+	path := filepath.Join(dir, fileName(c.Kind, id))
+	preBytes := pattern(c.Size+37, 0xa1)
+	hook.Disarm()
+	if err := os.WriteFile(path, preBytes, 0600); err != nil {
+		return "harness: " + err.Error()
+	}
+	var holder lock.LockedFile
+	var err error
+	if exclusive {
+		holder, err = lock.OpenExclusive(path, os.O_RDWR, 0600)
+	} else {
+		holder, err = lock.OpenShared(path, os.O_RDONLY, 0600)
+	}
+	if err != nil {
+		return "harness: cannot take the holder's lock: " + err.Error()
+	}
+	defer func() { _ = holder.Close() }()
+	item := &synthItem{size: c.Size, buffered: true, failAt: -1, cancelAt: -1}
+	item.closeCh = make(chan struct{})
+	d := index.NewFileSystemDirectory(dir)
+	perr := d.Persist(c.Kind, id, item, item.closeCh)
+	got, rerr := os.ReadFile(path)
+	if perr == nil {
+		return "Persist reported success on an item whose file another party holds locked"
+	}
+	if rerr != nil {
+		return fmt.Sprintf("Persist failed (%v) on an item whose file another party holds locked, and the file is gone: %v", perr, rerr)
+	}
+	if !bytes.Equal(got, preBytes) {
+		return fmt.Sprintf("Persist failed (%v) on an item whose file another party holds locked, but changed that file: %d bytes before, %d after (first difference at %d)", perr, len(preBytes), len(got), firstDiff(got, preBytes))
+	}
+	return ""
 }
 
 func runC13Case(root string, hook *OSHook, c c13Case, res *Result) string {
